@@ -110,16 +110,31 @@ def ch2(op):
     return lambda x, y: CChild(op(x.view, y.view))
 
 
+def lift(fn):
+    """apply a function of child components through conditional components (keeps the interface
+    functions applied to plain views, so that the induction-hypothesis instances match)"""
+
+    def g(*args):
+        for i, x in enumerate(args):
+            if isinstance(x, CIte):
+                return CIte(x.c, g(*args[:i], x.a, *args[i + 1 :]), g(*args[:i], x.b, *args[i + 1 :]))
+        return fn(*args)
+
+    return g
+
+
+@lift
 def child_plus(x, y):
     return CChild(core.vplus(x.view, y.view))
 
 
+@lift
 def child_zero(x):
     return CChild(core.vzero(x.view))
 
 
 def child_scale(x, f):
-    return CChild(core.vscale(x.view, f))
+    return lift(lambda c: CChild(core.vscale(c.view, f)))(x)
 
 
 def child_compat(x, y):
